@@ -157,6 +157,7 @@ structure WsCase where
   tag : Tag
   fin : End
   hasTimeout : Bool             -- a grpc-timeout was supplied (header or _metadata query)
+  clientInterfered : Bool       -- the client itself sent close / control frames or raw wire bytes
   routeOK : Bool
   routerHit : Bool
   cs : Bool
@@ -176,7 +177,7 @@ structure WsCase where
 /-- The invalid first message must be answered as a client error: deterministic only when the request is
     read before anything is sent (not client-streaming) or the target stays silent until half-close. -/
 def wsMustReportInvalid (c : WsCase) : Bool :=
-  !c.grpcws && c.routeOK && c.fin == .wait && c.handshake == 101 && !c.hasTimeout &&
+  !c.grpcws && c.routeOK && c.fin == .wait && !c.clientInterfered && c.handshake == 101 && !c.hasTimeout &&
   ((c.firstJSONInvalid == some true && c.body != .none && (!c.cs || c.script.wait)) ||
    (c.tag == .badparam && !c.cs && c.body == .none))
 
@@ -196,7 +197,7 @@ def wsViolations (c : WsCase) : List String :=
        | .proto => ["ws-frame-malformed"]
        | .code k => if validCloseCode k then [] else ["ws-close-code-invalid"]
        | _ => []) ++
-      (if c.grpcws && c.fin == .wait && c.close == .code 1000 && !c.lastIsTrailer then ["grpcws-no-final-trailer"] else []) ++
+      (if c.grpcws && c.fin == .wait && !c.clientInterfered && c.close == .code 1000 && !c.lastIsTrailer then ["grpcws-no-final-trailer"] else []) ++
       (if wsMustReportInvalid c &&
           !((c.close == .code 1001 && c.reasonCode == some "InvalidArgument") || c.close == .code 1007 || c.close == .code 1003)
        then ["invalid-input-not-client-error"] else [])
